@@ -1,5 +1,5 @@
 // Kani harness compiled inside qbase::frame::streams_blocked (overlay injection, cfg(kani) only).
-// Property C12 (reachability lemma for the pending harness c12_remote_blocked_demand_any): the
+// Property C12 (reachability lemma for the pending harness c12_remote_blocked_demand_any_pending): the
 // STREAMS_BLOCKED parser accepts EVERY varint, including values above 2^60 and 2^62-1 itself —
 // nothing between the wire and `RemoteStreamIds::recv_streams_blocked_frame` bounds the value.
 use super::*;
